@@ -2,9 +2,12 @@ package notation
 
 import (
 	"fmt"
+	"reflect"
 	"testing"
 
 	mod "github.com/craterdog/go-collection-framework/v4"
+	cdc "github.com/craterdog/go-collection-framework/v4/cdcn"
+	col "github.com/craterdog/go-collection-framework/v4/collection"
 	"verifharness/cdcngen"
 	"verifharness/core"
 	"verifharness/lib"
@@ -42,6 +45,62 @@ func execDoc(c docCase, _ core.Source) (res core.Result) {
 		res.Violation = core.Violate("C11/wrong-meaning", "ParseSource accepted the text but the result differs from its denotation: %s\ntext:\n%s", d, c.Doc.Text)
 		return
 	}
+	// every collection literal denotes a collection of its own: no object occurs twice in the result
+	seen := map[any]bool{}
+	var dup func(x any) string
+	dup = func(x any) string {
+		switch t := x.(type) {
+		case col.CatalogLike[any, any]:
+			if seen[t] {
+				return "a Catalog"
+			}
+			seen[t] = true
+			for _, a := range t.AsArray() {
+				if d := dup(a.GetValue()); d != "" {
+					return d
+				}
+			}
+		case col.MapLike[any, any]:
+			for _, a := range t.AsArray() {
+				if d := dup(a.GetValue()); d != "" {
+					return d
+				}
+			}
+		case interface{ AsArray() []any }:
+			if reflect.ValueOf(x).Kind() == reflect.Pointer {
+				if seen[x] {
+					return fmt.Sprintf("a %T", x)
+				}
+				seen[x] = true
+			}
+			for _, e := range t.AsArray() {
+				if d := dup(e); d != "" {
+					return d
+				}
+			}
+		}
+		return ""
+	}
+	if d := dup(obj); d != "" {
+		res.Violation = core.Violate("C11/aliased-subcollections", "two collection literals of the source denote one and the same object (%s): changing one would change the other\n%s", d, c.Doc.Text)
+		return
+	}
+	// one parser, two calls: what the first call returned belongs to the caller; changing it must not
+	// change what the second call returns
+	parser := cdc.Parser().Make()
+	var first, second any
+	if p, _ := lib.Call(func() {
+		first = parser.ParseSource(c.Doc.Text)
+		scribble(first)
+		second = parser.ParseSource(c.Doc.Text)
+	}); p {
+		res.Violation = core.Violate("C11/parser-reuse", "re-using one parser for the same text panicked\n%s", c.Doc.Text)
+		return
+	}
+	if d := cdcngen.Matches(want, second, "$"); d != "" {
+		res.Violation = core.Violate("C11/result-depends-on-earlier-results", "after the caller changed the result of an earlier ParseSource call on the same parser, the same text parses differently: %s\n%s", d, c.Doc.Text)
+		return
+	}
 	// the same text parsed again gives the same value (plain run; controlled schedules are in the conc package)
 	var again any
 	if p, _ := lib.Call(func() { again = mod.ParseSource(c.Doc.Text) }); p || !model.Identical(model.Abstract(again), model.Abstract(obj)) {
@@ -51,6 +110,53 @@ func execDoc(c docCase, _ core.Source) (res core.Result) {
 	n := len(c.Doc.Den.Items) + len(c.Doc.Den.Pairs)
 	res.NonTrivial = n >= 2 || c.Doc.Den.Depth() >= 2 || hasNonDefaultLiteral(c.Classes)
 	return
+}
+
+// scribble changes every mutable collection of a parsed result in place
+func scribble(x any) {
+	switch t := x.(type) {
+	case col.CatalogLike[any, any]:
+		for _, a := range t.AsArray() {
+			scribble(a.GetValue())
+		}
+		t.SetValue("scribble", int64(1))
+	case col.MapLike[any, any]:
+		for _, a := range t.AsArray() {
+			scribble(a.GetValue())
+		}
+		t.SetValue("scribble", int64(1))
+	case col.ListLike[any]:
+		for _, e := range t.AsArray() {
+			scribble(e)
+		}
+		t.AppendValue("scribble")
+	case col.SetLike[any]:
+		for _, e := range t.AsArray() {
+			scribble(e)
+		}
+		t.AddValue("scribble")
+	case col.StackLike[any]:
+		for _, e := range t.AsArray() {
+			scribble(e)
+		}
+		if uint(t.GetSize()) < t.GetCapacity() {
+			t.AddValue("scribble")
+		}
+	case col.QueueLike[any]:
+		for _, e := range t.AsArray() {
+			scribble(e)
+		}
+		if uint(t.GetSize()) < t.GetCapacity() {
+			t.AddValue("scribble")
+		}
+	case col.ArrayLike[any]:
+		for _, e := range t.AsArray() {
+			scribble(e)
+		}
+		if t.GetSize() > 0 {
+			t.SetValue(1, "scribble")
+		}
+	}
 }
 
 func hasNonDefaultLiteral(cl []string) bool {
